@@ -32,12 +32,17 @@ def f(a, b=0, c=1, *args, **kwargs):
     return ('f', a, b, c, args, tuple(sorted(kwargs.items())))
 
 class Base(object):
+    #EQ#
     def t(self, p, q=3):
         return ('t', self, p, q)
     def plain(self, a, b=0, c=1):
         return ('plain', self, a, b, c)
 
 class K(Base):
+    __signature__ = specifiers.as_forged
+    @specifiers.forwards_to_method('t')
+    def __call__(self, a, *args, **kwargs):
+        return ('call', self, a, self.t(*args, **kwargs))
     def m(self, a, b=0, c=1, *args, **kwargs):
         return ('m', self, a, b, c, args, tuple(sorted(kwargs.items())))
     @specifiers.forwards_to_method('t')
@@ -60,7 +65,10 @@ class Sub(K):
     pass
 '''
 
-ATTRS = ['m', 'fm', 'fmm', 'dm', 'wm', 'fe', 'plain']
+EQ_CODE = ('def __eq__(self, other):\n        return type(self) is type(other)\n'
+           '    def __hash__(self):\n        return 7')
+
+ATTRS = ['m', 'fm', 'fmm', 'dm', 'wm', 'fe', 'plain', '<self>']
 INST_CLASSES = ['K', 'K', 'Sub']
 
 # modifier atoms (disjoint annotation targets so that the *set* determines the result)
@@ -108,9 +116,11 @@ def _retrieve(how, obj):
 class Env(object):
     """A world plus instances; used for both the history and the twins."""
 
-    def __init__(self):
-        spec = dict(template='c18', params={}, source=SOURCE, subjects={})
-        self.w = worlds.build(spec)
+    def __init__(self, eq_mode=0):
+        self.eq_mode = eq_mode
+        src = SOURCE.replace('#EQ#', EQ_CODE if eq_mode else 'pass')
+        spec = dict(template='c18', params={}, source=src, subjects={})
+        self.w = worlds.build(spec, shared_code_key='c18-eq{0}'.format(eq_mode))
         self.ns = self.w.ns
         self.insts = [None, None, None]
         self.applied = {'m': [], 'f': []}
@@ -141,6 +151,8 @@ class Env(object):
         if kind == 'inst':
             _, i, attr, via = tdesc
             inst = self.insts[i]
+            if attr == '<self>':
+                return inst, inst
             if via == 'getattr':
                 return getattr(inst, attr), inst
             owner = self.ns['K'] if via == 'get:K' else type(inst)
@@ -152,6 +164,8 @@ class Env(object):
             return raw.__get__(inst, owner), inst
         if kind == 'class':
             _, owner, attr = tdesc
+            if attr == '<self>':
+                return self.ns[owner], None
             return getattr(self.ns[owner], attr), None
         if kind == 'func':
             return self.ns['f'], None
@@ -201,19 +215,19 @@ def do_op(env, op, tdesc, extra, obj=None, inst=None):
 _TWIN = {}
 
 
-def twin_outcome(m_atoms, f_atoms, op, tdesc, extra):
+def twin_outcome(m_atoms, f_atoms, op, tdesc, extra, eq_mode=0):
     """First-time outcome on a freshly compiled world in the same decoration
     state (atoms applied in the given order before anything is bound)."""
     ttd = tdesc
     if tdesc[0] == 'inst':
         ttd = ('inst', tdesc[1], tdesc[2], tdesc[3])
-    key = (tuple(m_atoms), tuple(f_atoms), op, ttd, extra)
+    key = (tuple(m_atoms), tuple(f_atoms), op, ttd, extra, eq_mode)
     r = _TWIN.get(key)
     if r is not None:
         return r
     if len(_TWIN) > 50000:
         _TWIN.clear()
-    env = Env()
+    env = Env(eq_mode)
     try:
         try:
             for a in m_atoms:
@@ -235,7 +249,8 @@ def twin_outcome(m_atoms, f_atoms, op, tdesc, extra):
 def full_view(m_atoms, f_atoms, which):
     """Everything observable about the attribute in a given decoration order:
     signatures (class- and instance-level, sigtools and inspect) and call
-    behaviour over all call shapes."""
+    behaviour over all call shapes -- one fresh world per order, the same fixed
+    sequence of observations in every order."""
     key = ('view', tuple(m_atoms), tuple(f_atoms), which)
     r = _TWIN.get(key)
     if r is not None:
@@ -245,20 +260,33 @@ def full_view(m_atoms, f_atoms, which):
         targets = [('class', 'K', 'm'), ('inst', 0, 'm', 'getattr'), ('inst', 2, 'm', 'getattr')]
     else:
         targets = [('func',)]
-    for td in targets:
-        for how in HOWS[:2]:
-            o = twin_outcome(m_atoms, f_atoms, 'retrieve', td, how)
-            if o == ('inadmissible',):
-                _TWIN[key] = o
-                return o
-            if o[0] == 'ok':        # provenance names the translator objects, which differ by construction
-                o = ('ok', dict(str=o[1]['str'], params=o[1]['params'], ret=o[1]['ret']))
-            out.append((td, how, snapshot.freeze(o)))
-        for si in range(len(CALL_SHAPES)):
-            out.append((td, 'call', si, twin_outcome(m_atoms, f_atoms, 'call', td, si)))
-    r = tuple(out)
-    _TWIN[key] = r
-    return r
+    env = Env()
+    try:
+        try:
+            for a in m_atoms:
+                env.redecorate('m', a)
+            for a in f_atoms:
+                env.redecorate('f', a)
+        except ValueError:
+            out = ('inadmissible',)
+        else:
+            for i in range(3):
+                env.new_instance(i)
+            for td in targets:
+                for how in HOWS[:2]:
+                    o = do_op(env, 'retrieve', td, how)
+                    if o[0] == 'ok':    # provenance names the translator objects, which differ by construction
+                        o = ('ok', dict(str=o[1]['str'], params=o[1]['params'], ret=o[1]['ret']))
+                    out.append((td, how, snapshot.freeze(o)))
+                for si in range(len(CALL_SHAPES)):
+                    out.append((td, 'call', si, do_op(env, 'call', td, si)))
+            out = tuple(out)
+    finally:
+        env.teardown()
+    if len(_TWIN) > 50000:
+        _TWIN.clear()
+    _TWIN[key] = out
+    return out
 
 
 def retention_path(wr, ignore_ids):
@@ -326,7 +354,10 @@ class C18Hist(object):
 
     def run(self, ch, cfg):
         res = RunResult()
-        env = Env()
+        eq_mode = 1 if ch.chance(1, 4, 'value-equal-instances') else 0
+        if eq_mode:
+            res.counters['runs_with_value_equal_instances'] += 1
+        env = Env(eq_mode)
         try:
             self._run(ch, cfg, res, env)
         finally:
@@ -350,7 +381,7 @@ class C18Hist(object):
 
         # swarm: every run has a focus (attribute, instance) most accesses go to, and its own
         # operation mix, so that access -> change -> access-again patterns are common
-        focus_attr = ATTRS[ch.weighted([6, 2, 2, 1, 1, 1, 1], 'focus-attr')]
+        focus_attr = ATTRS[ch.weighted([6, 2, 2, 1, 1, 1, 1, 2], 'focus-attr')]
         focus_inst = ch.draw(3, 'focus-inst')
         op_weights = [[4, 3, 3, 3, 1, 2, 1, 1], [4, 1, 2, 6, 0, 1, 0, 0], [3, 4, 3, 1, 2, 4, 1, 2],
                       [5, 2, 5, 2, 1, 1, 1, 1]][ch.draw(4, 'op-mix')]
@@ -365,12 +396,12 @@ class C18Hist(object):
                 if not live:
                     return None
                 i = live[ch.draw(len(live), 'instance')]
-                attr = ATTRS[ch.weighted([5, 2, 2, 1, 1, 1, 1], 'attr')]
+                attr = ATTRS[ch.weighted([5, 2, 2, 1, 1, 1, 1, 2], 'attr')]
                 via = ['getattr', 'getattr', 'get:K', 'get:own'][ch.draw(4, 'via')]
                 return ('inst', i, attr, via)
             if k == 1:
                 owner = ['K', 'Sub'][ch.draw(2, 'owner')]
-                attr = ATTRS[ch.weighted([5, 2, 2, 1, 1, 1, 1], 'attr')]
+                attr = ATTRS[ch.weighted([5, 2, 2, 1, 1, 1, 1, 2], 'attr')]
                 return ('class', owner, attr)
             return ('func',)
 
@@ -407,7 +438,7 @@ class C18Hist(object):
                 if use_slot and ver != version[0]:
                     res.counters['stale_slot_comparison_skipped'] += 1
                     return False
-                exp = twin_outcome(env.applied['m'], env.applied['f'], opname, td, extra)
+                exp = twin_outcome(env.applied['m'], env.applied['f'], opname, td, extra, env.eq_mode)
                 res.event(step, opname, td, extra, snapshot.freeze(got))
                 if snapshot.freeze(got) != snapshot.freeze(exp):
                     if opname == 'call' and 'WRONG-INSTANCE' in repr(got):
@@ -428,7 +459,7 @@ class C18Hist(object):
                 try:
                     obj, inst = env.target(td)
                 except Exception as e:
-                    exp = twin_outcome(env.applied['m'], env.applied['f'], 'retrieve', td, HOWS[0])
+                    exp = twin_outcome(env.applied['m'], env.applied['f'], 'retrieve', td, HOWS[0], env.eq_mode)
                     trace.append('bind({0}) raised {1}'.format(td, type(e).__name__))
                     if exp[0] != 'bind-exc':
                         viol('H2', 'binding raises only after this history',
